@@ -110,6 +110,8 @@ type Node struct {
 	Direct map[string]Schedule
 	// scratchCost: the one GasCost object the host reuses for direct announcements and overwrites afterwards
 	scratchCost *vmcommon.GasCost
+	// HostRemoved: functions the host took out of the live container through its public API
+	HostRemoved map[string]bool
 	// dnsArg: the very map object that was passed to the factory (the host goes on using it)
 	dnsArg map[string]struct{}
 }
@@ -250,6 +252,7 @@ func (nd *Node) build() error {
 	nd.factory = fac
 	nd.Container = cont
 	nd.Direct = nil
+	nd.HostRemoved = nil
 	nd.dnsArg = dns
 	if nd.Cfg.DNSIntruder != "" {
 		nd.TamperDNSArg([]byte(nd.Cfg.DNSIntruder))
@@ -293,6 +296,7 @@ func (nd *Node) Rebuild() error {
 	nd.Restarts++
 	nd.restoreDNSArg()
 	nd.Direct = nil
+	nd.HostRemoved = nil
 	cont, err := nd.factory.CreateBuiltInFunctionContainer()
 	if err != nil {
 		return fmt.Errorf("container: %w", err)
@@ -358,4 +362,15 @@ func (nd *Node) CloneFor() (*Node, error) {
 	st.Faults = c.Faults
 	c.Store.Accts = st.Accts
 	return c, nil
+}
+
+// HostRemove: the host takes a function out of the live container (public container API). The
+// other functions stay what they are, and go on following schedule changes.
+func (nd *Node) HostRemove(name string) {
+	nd.Container.Remove(name)
+	if nd.HostRemoved == nil {
+		nd.HostRemoved = map[string]bool{}
+	}
+	nd.HostRemoved[name] = true
+	delete(nd.Direct, name)
 }
